@@ -154,7 +154,7 @@ func init() {
 			return s
 		},
 		Run:  c15Run,
-		Rule: "templates = every sequence of <=3 (4 thorough) preceding items from 14 (text lines, CRLF, single/multi-line tags, # comment lines, multi-line double- and back-quoted strings, multi-line comment tag, output tag, if/for blocks spanning lines, escaped tag) followed by one failing statement of 53 kinds (incl. a stored contentFor block failing when contentOf runs it: the line of the statement inside the block) (incl. partial calls whose partial fails on a line of its own, at its top level or inside a helper's block: the caller's error leads with the line of the call and only that number shifts; (failures reported at a multi-line string token) (10 runtime faults, 14 syntax-error families incl. un-parsable numbers, break outside a loop and argument lists cut by the closing tag, tokens directly followed by a newline, failures after a multi-line user function was called in the same statement, 2 multi-line failing tags, failures in the header of a statement whose block spans several tags and lines (if condition, non-iterable for, failing block helper - silent and emitting), unterminated string at EOF) at top level or inside if / else / for / fn (called later) / helper block / for+if bodies, followed by trailing text; then shifted by k in {1,2,3} leading newlines. For templates without preceding items the shifts are repeated with the template cache on (unshifted text first, two passes). Oracle: (i) error starts with 'line N:'; (ii) N is the 1-based line on which the failing tag begins (within the tag's lines when it spans several / within the string's lines for an unterminated string); (iii) the shifted template's error equals the original with every 'line n:' replaced by 'line n+k:'. Non-trivial: at least one newline precedes the failing tag.",
+		Rule: "templates = every sequence of <=3 (4 thorough) preceding items from 14 (text lines, CRLF, single/multi-line tags, # comment lines, multi-line double- and back-quoted strings, multi-line comment tag, output tag, if/for blocks spanning lines, escaped tag) followed by one failing statement of 53 kinds (incl. a stored contentFor block failing when contentOf runs it: the line of the statement inside the block) (incl. partial calls whose partial fails on a line of its own, at its top level or inside a helper's block: the caller's error leads with the line of the call and only that number shifts; (failures reported at a multi-line string token) (10 runtime faults, 14 syntax-error families incl. un-parsable numbers, break outside a loop and argument lists cut by the closing tag, tokens directly followed by a newline, failures after a multi-line user function was called in the same statement, 2 multi-line failing tags, failures in the header of a statement whose block spans several tags and lines (if condition, non-iterable for, failing block helper - silent and emitting), unterminated string at EOF) at top level or inside if / else / for / fn (called later) / helper block / for+if bodies, followed by trailing text; then shifted by k in {1,2,3} leading newlines. For templates without preceding items the shifts are repeated with the template cache on (unshifted text first, two passes) and through a Template value (NewTemplate / a literal Template; a text that did not parse has its Input shifted and is parsed / executed again: the line of the current Input; a parsed one executed repeatedly and as a Clone: the same line). Oracle: (i) error starts with 'line N:'; (ii) N is the 1-based line on which the failing tag begins (within the tag's lines when it spans several / within the string's lines for an unterminated string); (iii) the shifted template's error equals the original with every 'line n:' replaced by 'line n+k:'. Non-trivial: at least one newline precedes the failing tag.",
 		Bound: func(th bool) string {
 			if th {
 				return "<=4 preceding items, 7 placements, shifts 1..3"
@@ -242,6 +242,34 @@ func c15One(t *engine.T, fl c15Fail, seq []int) {
 				}
 			}
 			if len(names) == 0 {
+				// through a Template value: a text that does not parse is parsed again by the next Parse / Exec, so the
+				// line is the one in the template's current Input; a parsed template reports the same line every time
+				for _, tm := range []*plush.Template{func() *plush.Template { tm, _ := plush.NewTemplate(src); return tm }(), {Input: src}} {
+					if tm == nil {
+						return "", engine.Failf("harness", "NewTemplate returned no template")
+					}
+					if perr := tm.Parse(); perr != nil {
+						if perr.Error() != msg {
+							return "", engine.Failf("shift", "Template.Parse: expected %q, got %q", msg, perr.Error())
+						}
+						for _, k := range []int{2, 0, 1} {
+							tm.Input = strings.Repeat("\n", k) + src
+							want := c15Shift(msg, k)
+							if e := tm.Parse(); e == nil || e.Error() != want {
+								return "", engine.Failf("shift", "Template.Parse after Input was shifted by %d newlines: expected %q, got %v", k, want, e)
+							}
+							if _, e := tm.Exec(c15Context()); e == nil || e.Error() != want {
+								return "", engine.Failf("shift", "Template.Exec after Input was shifted by %d newlines: expected %q, got %v", k, want, e)
+							}
+						}
+					} else {
+						for _, x := range []*plush.Template{tm, tm, tm.Clone(), tm} {
+							if _, e := x.Exec(c15Context()); e == nil || e.Error() != msg {
+								return "", engine.Failf("shift", "Template.Exec (repeated / Clone): expected %q, got %v", msg, e)
+							}
+						}
+					}
+				}
 				// the same with the template cache on: the unshifted text is rendered (and cached) first
 				plush.VerifCacheReset()
 				plush.CacheEnabled = true
